@@ -126,6 +126,8 @@ def run(rep, tier):
         probes(rep, r, c, cat, rows)
         if k % 6 == 0:
             wcs_probe(rep, r, c)
+        if k % 6 == 3:
+            integer_error_probe(rep, r, c)
     thin_segments_probe(rep, r, 40 * scale)
     out = drv.run(lines)
     if out is None:
@@ -428,6 +430,36 @@ def detection_catalog_probe(rep, r, c):
                 rep.violation(f'column-ne-definition:detection_cat:{nm}', f'label {lab} with a detection catalogue: {nm} = {g} but the defining formula on this '
                               f"catalogue's unmasked finite segment pixels gives {e}", dict(rp, label=lab))
                 return
+
+
+def integer_error_probe(rep, r, c):
+    """(S) an error map held in a small integer dtype (counts) whose squares do not fit the dtype: the error columns are the quadrature
+    sums of the VALUES, i.e. what the same map gives as float64 (seed C07-r11 squared in the integer dtype)"""
+    dt = r.choice([np.uint16, np.int16, np.uint8])
+    lo, hi = {np.uint16: (260, 400), np.int16: (190, 300), np.uint8: (20, 200)}[dt]
+    rs = np.random.RandomState(r.randrange(2 ** 31))
+    erri = rs.randint(lo, hi, size=c['data'].shape).astype(dt)
+    cols = ('segment_fluxerr', 'kron_fluxerr')
+    try:
+        a = make_cat(dict(c, err=erri))
+        b = make_cat(dict(c, err=erri.astype(np.float64)))
+        with warnings.catch_warnings():
+            warnings.simplefilter('ignore')
+            va = {nm: np.atleast_1d(np.asarray(getattr(getattr(a, nm), 'value', getattr(a, nm)), float)) for nm in cols}
+            vb = {nm: np.atleast_1d(np.asarray(getattr(getattr(b, nm), 'value', getattr(b, nm)), float)) for nm in cols}
+            va['circ'] = np.atleast_1d(np.asarray(a.circular_photometry(2.0)[1], float))
+            vb['circ'] = np.atleast_1d(np.asarray(b.circular_photometry(2.0)[1], float))
+    except Exception as e:                                      # noqa: BLE001
+        rep.violation(f'catalog-raises:integer-error:{type(e).__name__}', f'SourceCatalog with a {np.dtype(dt).name} error map raised {e!r}', replay_of(c))
+        return
+    rep.probe_only += 1
+    rep.count(f'integer-error-probe:{np.dtype(dt).name}')
+    for nm in va:
+        if not np.allclose(va[nm], vb[nm], rtol=1e-12, equal_nan=True):
+            j = int(np.flatnonzero(~np.isclose(va[nm], vb[nm], rtol=1e-12, equal_nan=True))[0])
+            rep.violation(f'integer-error-map:{nm}', f'{nm} of source #{j} = {va[nm][j]} for a {np.dtype(dt).name} error map, {vb[nm][j]} for the same values as float64',
+                          dict(replay_of(c), error=erri.tolist(), error_dtype=np.dtype(dt).name))
+            return
 
 
 def wcs_probe(rep, r, c):
